@@ -1355,19 +1355,7 @@ async def do_sum(
     attribute: str | int | None = None,
     start: V = 0,  # type: ignore
 ) -> V:
-    rv = start
-
-    if attribute is not None:
-        func = make_attrgetter(environment, attribute)
-    else:
-
-        def func(x: V) -> V:
-            return x
-
-    async for item in auto_aiter(iterable):
-        rv = rv + func(item)
-
-    return rv
+    return sync_do_sum(environment, await auto_to_list(iterable), attribute, start)
 
 
 def sync_do_list(value: "t.Iterable[V]") -> "list[V]":
